@@ -160,8 +160,7 @@ func (rl *Shell) run(main bool, bind inputrc.Bind, command func()) (bool, string
 	// If the resolved bind is a macro itself, reinject its
 	// bound sequence back to the key stack.
 	if bind.Macro {
-		macro := inputrc.Unescape(bind.Action)
-		rl.Keys.Feed(false, []rune(macro)...)
+		rl.Keys.Feed(false, []rune(bind.Action)...)
 	}
 
 	// The completion system might have control of the
